@@ -3,7 +3,7 @@
 cd "$(dirname "$(readlink -f "$0")")"
 TIER=${1:-quick}; SEED=${2:-1}; W=${3:-14}; B=${4:-}
 rc=0
-for p in $(python3 -c "import props; print(' '.join(sorted(props.PROPS)))"); do
+for p in $(python3 -c "import props; print(' '.join(sorted(p for p in props.PROPS if p.startswith('C'))))"); do
   if [ -n "$B" ]; then ./check $p --tier $TIER --seed $SEED --workers $W --budget $B > /tmp/run_all_$p.log 2>&1; else ./check $p --tier $TIER --seed $SEED --workers $W > /tmp/run_all_$p.log 2>&1; fi
   e=$?
   echo "$p exit=$e $(grep -E '^C[0-9]+ tier=' /tmp/run_all_$p.log | tail -1)"
